@@ -98,15 +98,20 @@ func runScenario(name string, cfgSeed uint64, ch func(int, []int) int, grace tim
 				cfg.writers[i].rows = []uint32{0}
 			}
 		}
-		cfg.readers, cfg.ranger = nil, false
+		cfg.readers, cfg.ranger, cfg.marker = nil, false, false
 		for i := range cfg.writers {
-			cfg.writers[i].abort = false
+			cfg.writers[i].abort, cfg.writers[i].del, cfg.writers[i].keep = false, false, false
 		}
 		if len(cfg.writers) > 2 && rng.Bool() {
 			cfg.writers = cfg.writers[:2]
 		}
 		if rng.Chance(40) {
 			cfg.writers[rng.Intn(len(cfg.writers))].insert = true
+		}
+		if rng.Chance(50) { // more commits per block beside the snapshot: every writer runs its transaction twice
+			for i := range cfg.writers {
+				cfg.writers[i].rounds = 1
+			}
 		}
 		return runSnap(cfg, ch, grace)
 	case "keys":
@@ -187,12 +192,16 @@ func cmdSched(args []string) {
 		for _, name := range strings.Split(*scen, ",") {
 			for i := 0; i < *n; i++ {
 				cfgSeed := rng.U64() % 1000000
-				if i%2 == 0 {
+				switch i % 3 {
+				case 0:
 					rc := &randomChooser{rng: rng.Fork(uint64(i)), keep: 55}
 					record(name, cfgSeed, runScenario(name, cfgSeed, rc.choose, grace))
-				} else {
+				case 1:
 					pc := newPCT(rng.Fork(uint64(i)), 1+i%3, 60)
 					record(name, cfgSeed, runScenario(name, cfgSeed, pc.choose, grace))
+				default:
+					cc := &coarseChooser{rng: rng.Fork(uint64(i)), last: -1}
+					record(name, cfgSeed, runScenario(name, cfgSeed, cc.choose, grace))
 				}
 			}
 			// depth-first enumeration of all schedules of a few configurations
